@@ -232,7 +232,11 @@ class ECDSAKey(PKey):
             return False
         sig = msg.get_binary()
         sigR, sigS = self._sigdecode(sig)
-        signature = encode_dss_signature(sigR, sigS)
+        try:
+            signature = encode_dss_signature(sigR, sigS)
+        except ValueError:
+            # negative r or s
+            return False
 
         try:
             self.verifying_key.verify(
